@@ -29,6 +29,7 @@ EXPLANATION = (
     ' Round-4 triage: (14) NONE-SENTINEL on attribute maps; (15) _tagmarkup_recurse reads the last run only when both run lists are non-empty; (16) the 88-colour fallback helper of register_palette_entry examines every comma-separated setting of a description. Round 5: (17) the rendition model of draw_screen (shared with C04.13); (18) LayoutSegment.offs (None = alignment padding, 0 = first character) is never tested for truthiness by its consumers; (19) every emitting branch of the segment loop of apply_text_layout records attribute and charset runs.'
     ' Round 6: (16) the hN bound of the 88-colour fallback lies between the number of basic colours and the number of leading colour numbers on which the folded 88- and 256-colour palettes agree; (20) INV restricted to Text / AttrMap / AttrWrap / SelectableIcon / Edit: every write of markup or attribute-map state invalidates (a retagged text with the same characters otherwise keeps its old attributes on screen).'
     ' (21) RUNPOS: the attribute runs _tagmarkup_recurse returns have a length shown positive - an empty string in the markup creates no run (fix f28b40b: the rendered row ended at the zero-length run).'
+    ' Round 7: (22) = C04.3: whatever changes what a palette name means on the terminal (re-registering an entry) resets the screen buffer, so rows whose names and text did not change are repainted with the new colours.'
 )
 NOT_DECIDED = "Run-length alignment of attributes through layout and encoding, composition order of nested maps as a value statement, the SGR text produced for every AttrSpec and its decoding."
 ASSUMPTIONS = []
@@ -459,7 +460,9 @@ def run(ctx: Ctx):
     from ..rules import runpos as _runpos
 
     r21 = _runpos.run_runpos_returns(ctx.p, "C17.21", ["urwid.util._tagmarkup_recurse"], floor=1)
-    return [r17, r18, r20, r21, rule_charset_pad(ctx), rule_palette_order(ctx), rule_palette_notify(ctx), rule_palette_cache(ctx), rule_palette_total(ctx), rule_attrmap(ctx), r6, r7, r8, r9, r10, r11, r12, rule_palette_depth_index(ctx), _sentinel(ctx), rule_markup_index_guard(ctx), rule_desc_tokens(ctx)]
+    r22 = _c04.rule_repaint(ctx)
+    r22.clause = "C17.22"
+    return [r17, r18, r20, r21, r22, rule_charset_pad(ctx), rule_palette_order(ctx), rule_palette_notify(ctx), rule_palette_cache(ctx), rule_palette_total(ctx), rule_attrmap(ctx), r6, r7, r8, r9, r10, r11, r12, rule_palette_depth_index(ctx), _sentinel(ctx), rule_markup_index_guard(ctx), rule_desc_tokens(ctx)]
 
 
 _CM = "urwid/display/common.py"
